@@ -170,7 +170,19 @@ func c03CommitOrder(c *Ctx) {
 // deleteCalls lists DeleteObject* request calls of fn (invoke on an S3 interface or the client).
 func deleteCalls(fn *ssa.Function) []ssa.CallInstruction {
 	var out []ssa.CallInstruction
+	_, _, isWrapper := deleteWrapper(fn)
 	for _, call := range an.Calls(fn) {
+		if f := call.Common().StaticCallee(); f != nil {
+			if _, _, ok := deleteWrapper(f); ok {
+				// a call of a thin "delete this key of this bucket" helper is the delete site
+				out = append(out, call)
+				continue
+			}
+		}
+		if isWrapper {
+			// the request inside the helper is accounted for at the helper's call sites
+			continue
+		}
 		n := ""
 		cc := call.Common()
 		if cc.IsInvoke() {
@@ -194,8 +206,97 @@ type deleteTarget struct {
 	BucketThrough []*types.Var
 }
 
+// deleteWrapper recognises a thin helper around one DELETE request: a library function with
+// exactly one DeleteObject call whose Key and Bucket are parameters of the helper as they are
+// (aws.String(p) or &p). It returns the parameter indices of key and bucket.
+var deleteWrapperCache = map[*ssa.Function][3]int{}
+
+func deleteWrapper(fn *ssa.Function) (keyIdx, bucketIdx int, ok bool) {
+	if r, seen := deleteWrapperCache[fn]; seen {
+		return r[0], r[1], r[2] == 1
+	}
+	deleteWrapperCache[fn] = [3]int{-1, -1, 0}
+	if fn == nil || fn.Blocks == nil || fn.Pkg == nil || !strings.HasPrefix(fn.Pkg.Pkg.Path(), "github.com/jrhy/s3db") {
+		return -1, -1, false
+	}
+	var inner ssa.CallInstruction
+	n := 0
+	for _, call := range an.Calls(fn) {
+		nm := ""
+		cc := call.Common()
+		if cc.IsInvoke() {
+			nm = cc.Method.Name()
+		} else if f := cc.StaticCallee(); f != nil {
+			if _, ok := an.SinkOf(f); ok {
+				nm = f.Name()
+			}
+		}
+		if strings.HasPrefix(nm, "DeleteObject") {
+			inner = call
+			n++
+		}
+	}
+	if n != 1 {
+		return -1, -1, false
+	}
+	var input ssa.Value
+	for _, a := range inner.Common().Args {
+		if nt := an.NamedOf(a.Type()); nt != nil && nt.Obj().Name() == "DeleteObjectInput" {
+			input = a
+		}
+	}
+	if input == nil {
+		return -1, -1, false
+	}
+	paramIdx := func(v ssa.Value) int {
+		if v == nil {
+			return -1
+		}
+		if kc, ok := v.(*ssa.Call); ok && len(kc.Call.Args) == 1 { // aws.String(p)
+			v = kc.Call.Args[0]
+		} else if al, ok := v.(*ssa.Alloc); ok { // &p: the spilled parameter
+			var src ssa.Value
+			cnt := 0
+			for _, ref := range *al.Referrers() {
+				if st, ok := ref.(*ssa.Store); ok && st.Addr == ssa.Value(al) {
+					src = st.Val
+					cnt++
+				}
+			}
+			if cnt != 1 {
+				return -1
+			}
+			v = src
+		}
+		for i, p := range fn.Params {
+			if ssa.Value(p) == v {
+				return i
+			}
+		}
+		return -1
+	}
+	k := paramIdx(an.StoreToFieldOf(input, "Key"))
+	b := paramIdx(an.StoreToFieldOf(input, "Bucket"))
+	if k < 0 || b < 0 {
+		return -1, -1, false
+	}
+	deleteWrapperCache[fn] = [3]int{k, b, 1}
+	return k, b, true
+}
+
 func deleteTargetOf(call ssa.CallInstruction) *deleteTarget {
 	args := call.Common().Args
+	if f := call.Common().StaticCallee(); f != nil {
+		if k, b, ok := deleteWrapper(f); ok && k < len(args) && b < len(args) {
+			t := &deleteTarget{}
+			if bo, ok := an.Unwrap(args[k]).(*ssa.BinOp); ok && bo.Op == token.ADD {
+				t.PrefixThrough = an.FieldPath(bo.X)
+				t.KeySuffix = bo.Y
+			}
+			t.BucketThrough = an.FieldPath(args[b])
+			return t
+		}
+	}
 	var input ssa.Value
 	for _, a := range args {
 		if nt := an.NamedOf(a.Type()); nt != nil && nt.Obj().Name() == "DeleteObjectInput" {
@@ -355,9 +456,18 @@ func c03Retire(c *Ctx) {
 	c.R.Cond(sameEntry, rule, name+": copy carries the entry's bytes", c.P.Pos(cp.Pos()),
 		"the bytes written to merged/<name> are the map value of <name>", "the bytes copied to merged/ are not the recorded bytes of that version name")
 	// never for the new version: only via the "not the new version" edge of newRoot == key
-	newRoot := an.ParamNamed(guardFn, "newRoot")
+	// the new version's name is a string parameter of the guard's function (by role: the one the
+	// entry's name is compared with; its name is the maintainer's business)
+	isNameParam := func(v ssa.Value) bool {
+		p, ok := an.Unwrap(v).(*ssa.Parameter)
+		if !ok || p.Parent() != guardFn {
+			return false
+		}
+		b, ok := p.Type().Underlying().(*types.Basic)
+		return ok && b.Kind() == types.String
+	}
 	guarded := false
-	if newRoot != nil {
+	{
 		for _, b := range guardFn.Blocks {
 			iff, ok := b.Instrs[len(b.Instrs)-1].(*ssa.If)
 			if !ok {
@@ -368,7 +478,7 @@ func c03Retire(c *Ctx) {
 			if !ok || (bo.Op != token.EQL && bo.Op != token.NEQ) {
 				continue
 			}
-			if !(bo.X == newRoot && an.SameValue(bo.Y, keyC) || bo.Y == newRoot && an.SameValue(bo.X, keyC)) {
+			if !(isNameParam(bo.X) && an.SameValue(bo.Y, keyC) || isNameParam(bo.Y) && an.SameValue(bo.X, keyC)) {
 				continue
 			}
 			eq := bo.Op == token.EQL
@@ -664,11 +774,15 @@ func c03PersistLists(c *Ctx) {
 		return
 	}
 	pIdx, sIdx := -1, -1
+	// by role when the names are gone: the list of stores is the []mast.Persist parameter, the
+	// switch is the bool tested on the failing side of a load
+	pP := an.ParamOfType(mergeRootsFn, "persists", "[]"+mastPkg+".Persist")
+	sP := an.BoolParamUnderError(mergeRootsFn, "skipUnreadable")
 	for i, p := range mergeRootsFn.Params {
-		switch p.Name() {
-		case "persists":
+		switch {
+		case pP != nil && p == pP:
 			pIdx = i
-		case "skipUnreadable":
+		case sP != nil && p == sP:
 			sIdx = i
 		}
 	}
